@@ -148,6 +148,12 @@ def convert_conventions(
             conv1 = molbasis.conventions[key]
             conv2 = new_conventions[key]
             shell_permutation, shell_signs = _convert_convention_shell(conv1, conv2, reverse)
+            nfn = ((angmom + 1) * (angmom + 2)) // 2 if kind == "c" else 2 * angmom + 1
+            if len(shell_permutation) != nfn:
+                raise ValueError(
+                    f"The conventions for {key} must list {nfn} basis functions, "
+                    f"got {len(shell_permutation)}."
+                )
             offset = len(permutation)
             permutation.extend(i + offset for i in shell_permutation)
             signs.extend(shell_signs)
